@@ -77,7 +77,8 @@ def fresh_connection(I, **kw):
     return I.call(Connection, 'localhost', 25565, **kw)
 
 
-THREAD_STATES = ('idle', 'active', 'ending', 'handover-active', 'handover-ending')
+THREAD_STATES = ('idle', 'active', 'ending', 'handover-active', 'handover-ending',
+                 'handover-active-successor-interrupted', 'handover-ending-successor-interrupted')
 SOCK_STATES = ('never', 'refused-no-file', 'open', 'open-shutdown-fails', 'closed')
 
 
@@ -85,9 +86,11 @@ def put_in_state(conn, tstate, sstate, log):
     d = conn.__dict__
     cur = new = None
     if tstate != 'idle':
-        cur = types.SimpleNamespace(interrupt=tstate in ('ending', 'handover-ending'), name='cur')
+        cur = types.SimpleNamespace(interrupt=tstate in ('ending', 'handover-ending', 'handover-ending-successor-interrupted'),
+                                    name='cur')
     if tstate.startswith('handover'):
-        new = types.SimpleNamespace(interrupt=False, name='new')
+        # a successor that has itself been interrupted (disconnect() after a reconnect) still occupies the slot
+        new = types.SimpleNamespace(interrupt=tstate.endswith('successor-interrupted'), name='new')
     d['networking_thread'], d['new_networking_thread'] = cur, new
     if sstate == 'never':
         pass                               # exactly what __init__ left
@@ -166,7 +169,7 @@ class Lifecycle(Unit):
         E.check('lock.released', lock.depth == 0)
         d = conn.__dict__
         if op in ('connect', 'status'):
-            busy = tstate in ('active', 'handover-active', 'handover-ending')
+            busy = tstate == 'active' or tstate.startswith('handover')
             if busy:
                 E.check('refusal.invalid-state', isinstance(outcome, InvalidState),
                         note='%s in state %s must fail with InvalidState: %r' % (op, tstate, outcome))
@@ -200,7 +203,7 @@ class Lifecycle(Unit):
                 E.check('disconnect.interrupts', (target is None) or target.interrupt is True,
                         note='interrupt is set on the successor if there is one, else on the current thread')
                 if new is not None and cur is not None:
-                    E.check('disconnect.leaves-predecessor', cur.interrupt == (tstate in ('ending', 'handover-ending')))
+                    E.check('disconnect.leaves-predecessor', cur.interrupt == ('handover-ending' in tstate or tstate == 'ending'))
                 if op == 'disconnect-immediate':
                     E.check('disconnect.immediate-writes-nothing', '_pop_packet' not in self.log and 'sock.send' not in self.log)
                 if sstate.startswith('open'):
@@ -216,7 +219,8 @@ class Lifecycle(Unit):
 
     def replay(self, model, label):
         if label.startswith(('refusal', 'start')):
-            return replay_live()
+            rp = replay_typestates()
+            return rp if rp['confirmed'] else replay_live()
         return replay_lifecycle(label)
 
     def bounded(self, rng, tier):
@@ -260,6 +264,35 @@ def replay_lifecycle(label):
                     return dict(confirmed=True, n=n, call='history %r' % (hist,), observed='%s raised %r' % (op, res),
                                 witness='connect-raises')
     return dict(confirmed=False, n=n, call='histories up to length 4', observed='conform')
+
+
+def replay_typestates():
+    """The real connect()/status() on a real Connection object placed in each busy thread state (thread objects are
+    stand-ins with an `interrupt` flag; the transport is stubbed so that any socket activity is recorded)."""
+    for tstate in THREAD_STATES:
+        if not (tstate == 'active' or tstate.startswith('handover')):
+            continue
+        for op in ('connect', 'status'):
+            c = Connection('127.0.0.1', 1, username='u', allowed_versions={757})
+            log = []
+            put_in_state(c, tstate, 'open', log)
+            c._connect = lambda: log.append('_connect')
+            before = dict(c.__dict__)
+            try:
+                getattr(c, op)()
+                res = 'returned'
+            except InvalidState:
+                res = 'InvalidState'
+            except Exception as e:
+                res = repr(e)
+            after = dict(c.__dict__)
+            disturbed = '_connect' in log or any(after.get(k) is not before.get(k) for k in ('socket', 'file_object', 'reactor',
+                                                                                             '_outgoing_packet_queue', 'networking_thread',
+                                                                                             'new_networking_thread'))
+            if res != 'InvalidState' or disturbed:
+                return dict(confirmed=True, call='%s() on a Connection in thread state %s' % (op, tstate),
+                            observed='%s; transport touched: %r' % (res, disturbed))
+    return dict(confirmed=False, call='connect()/status() in every busy thread state', observed='all refused, undisturbed')
 
 
 def replay_live():
